@@ -9,5 +9,23 @@ for t, tn in enumerate(["projPoint", "extPoint"]):
                       renames={"(*go.dedis.ch/kyber/v4/group/mod.Int).Sqrt": "stubSqrt20", "(*go.dedis.ch/kyber/v4/group/edwards25519vartime.curve).data": "stubData20"}, race_entry="RaceVartimeReadOnly",
                       stubs=["math/big.Int as mathematical integer (receiver-writing methods are stores to the receiver); Bytes() of a symbolic value = fresh slice, arbitrary content; fmt/hex formatting = empty bodies"],
                       functions=["edwards25519vartime.(*%s).%s" % (tn, mn)], bound="arbitrary coordinates; one call"))
+EP = "go.dedis.ch/kyber/v4/group/edwards25519."
+W0 = dict(writes=[0], havoc=True)
+ed_contracts = {EP + k: W0 for k in ["feMul", "feSquare", "feSquare2", "feAdd", "feSub", "feNeg", "feCopy", "feCMove", "feFromBytes", "scMul", "scAdd", "scSub", "scMulAdd", "scReduce"]}
+ed_contracts[EP + "feToBytes"] = dict(writes=[0, 1], havoc=True)  # feToBytes normalises its INPUT in place as well
+ed_stubs = ["field / scalar limb kernels (feMul, feSquare, feSquare2, feAdd, feSub, feNeg, feCopy, feCMove, feToBytes, feFromBytes, scMul, scAdd, scSub, scMulAdd, scReduce) summarised as 'writes only its first parameter, arbitrary value'; each summary is checked on the real body by the ed25519.kernel-effects harnesses",
+            "math/big.Int as mathematical integer (receiver-writing methods are stores to the receiver); fmt/hex formatting = empty bodies"]
+sm = ["MarshalBinary", "Equal", "Clone", "String", "MarshalSize", "operand-of-Add-Sub", "operand-of-Neg-Set-Mul", "MarshalTo", "operand-of-Div", "IsCanonical"]
+pm = ["MarshalBinary", "Equal", "Clone", "String", "MarshalSize-EmbedLen", "Data", "operand-of-Add-Sub", "operand-of-Neg-Set", "HasSmallOrder", "operand-of-Mul", "scalar-of-BaseMul", "MarshalTo"]
+for t, (tn, ml) in enumerate([("scalar", sm), ("point", pm)]):
+    for k, mn in enumerate(ml):
+        H.append(dict(name="ed25519.%s.%s" % (tn, mn), pkg="./group/edwards25519", files=["harness/C20/ed25519.go"], entry="HarnessEdReadOnly", mode="int",
+                      params={"p0": t, "p1": k}, globals=["primeOrder", "lMinus2", "weakKeys", "nullPoint", "cofactorScalar", "primeOrderScalar"], big_bytes_havoc=32, unwind=400, contracts=ed_contracts, approx_bitops=True, race_entry="RaceEdReadOnly",
+                      stubs=ed_stubs, functions=["edwards25519.(*%s).%s" % (tn, mn)], bound="arbitrary contents (unreduced scalars, any limb values); one call"))
+kn = ["feMul", "feSquare", "feSquare2", "feAdd-feSub-feNeg-feCopy", "feCMove", "feToBytes", "feFromBytes", "scMul", "scAdd", "scSub", "scMulAdd", "scReduce"]
+for k, n in enumerate(kn):
+    H.append(dict(name="ed25519.kernel-effects.%s" % n, pkg="./group/edwards25519", files=["harness/C20/ed25519.go"], entry="HarnessEdKernelEffects", mode="int", params={"p0": k}, no_replay=True, approx_bitops=True,
+                  functions=["edwards25519." + n], bound="all inputs within the documented limb bounds; the output parameter is the only memory written",
+                  tiers=(["quick", "thorough"] if n in ("feMul", "feCMove", "feToBytes", "scAdd", "feFromBytes") else ["thorough"])))
 json.dump(dict(property="C20", harnesses=H), open(os.path.join(os.path.dirname(__file__), "..", "specs", "C20.json"), "w"), indent=1)
 print(len(H))
